@@ -809,6 +809,35 @@ Proof.
   congruence.
 Qed.
 
+(* ------------------------------------------------------------ the property at full strength *)
+(* C14 over the model: for every valid bundle with acyclic, present dependencies, every choice of the
+   order parameters (any permutations), fuel above the rank and any history of earlier calls on the
+   PackageSet, CompilePackage returns, and returns what the bundle alone determines; import lists
+   depend on the set of ensured files only; printed options, field options and map-option entries
+   do not depend on protobuf's Range order. *)
+Definition full_statement : Prop :=
+  (forall (F D : Type) (convert : env -> @srcfile F -> D) (b : @bundle F) rank,
+     valid b -> well_founded_deps b rank ->
+     forall lf rd rf,
+       (forall n l, Permutation (lf n l) l) -> (forall n l, Permutation (rd n l) l) -> (forall n l, Permutation (rf n l) l) ->
+     forall fuel earlier n, find_pkg n b <> None -> (rank n < fuel)%nat ->
+       exists c, compile_package convert lf rd rf fuel b (compile_seq convert lf rd rf fuel b [] earlier) n
+                 = Some (c, p_files (spec_pkg convert b n)))
+  /\ (forall c1 c2, (forall x, In x c1 <-> In x c2) -> ensure_all c1 = ensure_all c2)
+  /\ (forall l1 l2, Permutation l1 l2 -> distinct_on o_full l1 -> options_for l1 = options_for l2)
+  /\ (forall l1 l2, Permutation l1 l2 -> distinct_on o_name l1 -> field_options l1 = field_options l2)
+  /\ (forall l1 l2, Permutation l1 l2 -> distinct_on (fun kv : bytes * bytes => fst kv) l1 -> map_entries l1 = map_entries l2).
+Lemma full_statement_holds : full_statement.
+Proof.
+  split; [|split; [|split; [|split]]].
+  - intros F D convert b rank Hv Hw lf rd rf P1 P2 P3 fuel earlier n Hf Hr.
+    exact (compile_total_deterministic convert b rank Hv Hw lf rd rf P1 P2 P3 fuel earlier n Hf Hr).
+  - exact ensure_all_set_invariant.
+  - exact options_for_perm.
+  - exact field_options_perm.
+  - exact map_entries_perm.
+Qed.
+
 (* ------------------------------------------------------------ the order sites of the Go code *)
 From Coq Require Import String.
 From J5V.gen Require MapRangeGen SetExtGen.
